@@ -303,79 +303,118 @@ pub fn getters_agree() {
     let (a, account) = pick();
     let before = snapshot();
     prop!(get_recovered_to(&e, &account) == sel(&pre.rec, a), "C20.irs.getters.recovered_to_is_the_link");
-    let entries = get_country_data_entries(&e, &account);
-    match sel(&pre.prof, a) {
-        Some(p) => prop!(entries == p.countries, "C20.irs.getters.country_entries_is_the_profile_list"),
-        None => prop!(entries.len() == 0, "C20.irs.getters.country_entries_empty_for_unregistered"),
-    }
-    let which: u8 = kani::any();
-    if which == 0 {
+    witness!(sel(&pre.id, a).is_none() && sel(&pre.rec, a).is_some(), "getters.recovered_account");
+    witness!(sel(&pre.id, a).is_none() && sel(&pre.rec, a).is_none(), "getters.unregistered");
+    if kani::any() {
         let id = stored_identity(&e, &account);
         prop!(sel(&pre.id, a) == Some(id), "C20.irs.getters.stored_identity_is_the_map");
         witness!(true, "getters.registered");
-    } else if which == 1 {
+    } else {
         let p = get_identity_profile(&e, &account);
         prop!(sel(&pre.prof, a) == Some(p), "C20.irs.getters.profile_is_the_map");
+        witness!(true, "getters.profile");
+    }
+    prop!(unchanged_except(&before, 0), "C20.irs.getters.read_only");
+    end_checks(DECLARED);
+}
+
+#[kani::proof]
+#[kani::unwind(50)]
+pub fn country_getters_agree() {
+    setup_world();
+    let e = Env::default();
+    let pre = declare_state();
+    let (a, account) = pick();
+    let before = snapshot();
+    let p = sel(&pre.prof, a);
+    if kani::any() {
+        let entries = get_country_data_entries(&e, &account);
+        match &p {
+            Some(p) => prop!(entries == p.countries, "C20.irs.getters.country_entries_is_the_profile_list"),
+            None => prop!(entries.len() == 0, "C20.irs.getters.country_entries_empty_for_unregistered"),
+        }
+        witness!(p.is_none(), "country_getters.unregistered");
+        witness!(entries.len() == 2, "country_getters.two_entries");
     } else {
         let j: u32 = kani::any();
         let c = get_country_data(&e, &account, j);
-        let p = sel(&pre.prof, a);
         prop!(p.is_some(), "C20.irs.getters.country_data_of_unregistered_refused");
         prop!(p.unwrap().countries.get(j) == Some(c), "C20.irs.getters.country_data_by_index");
-        witness!(j == 1, "getters.second_country");
+        witness!(j == 1, "country_getters.second_country");
     }
     prop!(unchanged_except(&before, 0), "C20.irs.getters.read_only");
-    witness!(sel(&pre.id, a).is_none(), "getters.unregistered");
     end_checks(DECLARED);
 }
 
 // ------------------------------------------------------------------------------------------ country data lists
 #[kani::proof]
 #[kani::unwind(50)]
-pub fn country_data_step() {
+pub fn add_country_data_step() {
     setup_world();
     let e = Env::default();
     let pre = declare_state();
     let (a, account) = pick();
     let before = snapshot();
     let old = sel(&pre.prof, a);
-    let which: u8 = kani::any();
-    if which == 0 {
-        let add: Vec<CountryData> = Vec::arb();
-        // vector capacity of the model: the extended list fits
-        if let Some(p) = &old {
-            kani::assume(p.countries.len() + add.len() <= CAP as u32);
-        }
-        add_country_data_entries(&e, &account, &add);
-        let p = old.clone();
-        prop!(p.is_some(), "C20.irs.add_country_data_entries.unregistered_refused");
-        prop!(add.len() >= 1, "C20.irs.add_country_data_entries.empty_list_refused");
-        let mut expect = p.unwrap();
-        expect.countries.append(&add);
-        prop!(sel(&read_state().prof, a) == Some(expect.clone()), "C20.irs.add_country_data_entries.exactly_the_entries_appended");
-        prop!(expect.countries.len() <= MAX_COUNTRY_ENTRIES, "C20.irs.add_country_data_entries.country_limit_exact");
-        witness!(add.len() == 1, "country_data.one_added");
-    } else if which == 1 {
-        let j: u32 = kani::any();
-        let c = CountryData::arb();
-        modify_country_data(&e, &account, j, &c);
-        prop!(old.is_some(), "C20.irs.modify_country_data.unregistered_refused");
-        let mut expect = old.clone().unwrap();
-        prop!(j < expect.countries.len(), "C20.irs.modify_country_data.index_out_of_range_refused");
-        expect.countries.set(j, c);
-        prop!(sel(&read_state().prof, a) == Some(expect), "C20.irs.modify_country_data.exactly_the_indexed_entry_replaced");
-        witness!(j == 1, "country_data.second_modified");
-    } else {
-        let j: u32 = kani::any();
-        delete_country_data(&e, &account, j);
-        prop!(old.is_some(), "C20.irs.delete_country_data.unregistered_refused");
-        let mut expect = old.clone().unwrap();
-        prop!(j < expect.countries.len(), "C20.irs.delete_country_data.index_out_of_range_refused");
-        prop!(expect.countries.len() > 1, "C20.irs.delete_country_data.last_entry_cannot_be_deleted");
-        expect.countries.remove(j);
-        prop!(sel(&read_state().prof, a) == Some(expect), "C20.irs.delete_country_data.exactly_the_indexed_entry_removed");
-        witness!(j == 0, "country_data.first_deleted");
+    let add: Vec<CountryData> = Vec::arb();
+    // vector capacity of the model: the extended list fits
+    if let Some(p) = &old {
+        kani::assume(p.countries.len() + add.len() <= CAP as u32);
     }
+    add_country_data_entries(&e, &account, &add);
+    prop!(old.is_some(), "C20.irs.add_country_data_entries.unregistered_refused");
+    prop!(add.len() >= 1, "C20.irs.add_country_data_entries.empty_list_refused");
+    let mut expect = old.unwrap();
+    expect.countries.append(&add);
+    prop!(sel(&read_state().prof, a) == Some(expect.clone()), "C20.irs.add_country_data_entries.exactly_the_entries_appended");
+    prop!(expect.countries.len() <= MAX_COUNTRY_ENTRIES, "C20.irs.add_country_data_entries.country_limit_exact");
+    witness!(add.len() == 1, "country_data.one_added");
+    prop!(unchanged_except(&before, bit(S_PROF + a)), "C20.irs.country_data.nothing_else_changes");
+    prop!(inv(&read_state()), "C20.irs.country_data.invariant_preserved");
+    end_checks(DECLARED);
+}
+
+#[kani::proof]
+#[kani::unwind(50)]
+pub fn modify_country_data_step() {
+    setup_world();
+    let e = Env::default();
+    let pre = declare_state();
+    let (a, account) = pick();
+    let before = snapshot();
+    let old = sel(&pre.prof, a);
+    let j: u32 = kani::any();
+    let c = CountryData::arb();
+    modify_country_data(&e, &account, j, &c);
+    prop!(old.is_some(), "C20.irs.modify_country_data.unregistered_refused");
+    let mut expect = old.unwrap();
+    prop!(j < expect.countries.len(), "C20.irs.modify_country_data.index_out_of_range_refused");
+    expect.countries.set(j, c);
+    prop!(sel(&read_state().prof, a) == Some(expect), "C20.irs.modify_country_data.exactly_the_indexed_entry_replaced");
+    witness!(j == 1, "country_data.second_modified");
+    prop!(unchanged_except(&before, bit(S_PROF + a)), "C20.irs.country_data.nothing_else_changes");
+    prop!(inv(&read_state()), "C20.irs.country_data.invariant_preserved");
+    end_checks(DECLARED);
+}
+
+#[kani::proof]
+#[kani::unwind(50)]
+pub fn delete_country_data_step() {
+    setup_world();
+    let e = Env::default();
+    let pre = declare_state();
+    let (a, account) = pick();
+    let before = snapshot();
+    let old = sel(&pre.prof, a);
+    let j: u32 = kani::any();
+    delete_country_data(&e, &account, j);
+    prop!(old.is_some(), "C20.irs.delete_country_data.unregistered_refused");
+    let mut expect = old.unwrap();
+    prop!(j < expect.countries.len(), "C20.irs.delete_country_data.index_out_of_range_refused");
+    prop!(expect.countries.len() > 1, "C20.irs.delete_country_data.last_entry_cannot_be_deleted");
+    expect.countries.remove(j);
+    prop!(sel(&read_state().prof, a) == Some(expect), "C20.irs.delete_country_data.exactly_the_indexed_entry_removed");
+    witness!(j == 0, "country_data.first_deleted");
     prop!(unchanged_except(&before, bit(S_PROF + a)), "C20.irs.country_data.nothing_else_changes");
     prop!(inv(&read_state()), "C20.irs.country_data.invariant_preserved");
     end_checks(DECLARED);
